@@ -132,6 +132,9 @@ impl Property for C05 {
             Tier::Thorough => Budget { cases: 150_000, shards: 16, min_len: 16, max_len: 260 },
         }
     }
+    fn fuzz_targets(&self) -> Vec<(&'static str, u64, usize)> {
+        vec![("prop", 300_000, 260)]
+    }
     fn rule(&self) -> String {
         "bytes -> either 1-3 isolation rules (threshold 1..5) or 1-2 hotspot Concurrency rules (threshold 1..4, param_index in {0,1,-1,-2,5} or param_key, per-value overrides 1..4, capacity 0(default)/3/4 with <= 3 distinct values), 4-44 steps build(batch 1..4, args of length 0..3 / none, attachments with/without the key) / exit(any open entry), up to 8 open entries; oracle: isolation admits <=> for every rule in_flight + n <= T, hotspot per extracted value (batch 1: admit <=> in_flight_v + 1 <= T_v; batch n>1: must admit if in_flight_v + n <= T_v, must reject if in_flight_v >= T_v), block type and triggered rule checked both in the Err text and in the BlockError a custom StatSlot receives; non-trivial = a rejection at the cap, then an exit, then an admission, with >= 2 values or >= 2 rules; distinct = distinct decoded cases".into()
     }
